@@ -9,6 +9,38 @@ import (
 	"golang.org/x/tools/go/ssa"
 )
 
+type structLeaf struct {
+	path []int
+	t    types.Type
+}
+
+// structLeaves lists the scalar leaf fields of a struct type (ok=false if it contains arrays).
+func structLeaves(t types.Type) ([]structLeaf, bool) {
+	st, ok := t.Underlying().(*types.Struct)
+	if !ok {
+		return nil, false
+	}
+	var out []structLeaf
+	for i := 0; i < st.NumFields(); i++ {
+		ft := st.Field(i).Type()
+		switch ft.Underlying().(type) {
+		case *types.Struct:
+			sub, ok := structLeaves(ft)
+			if !ok {
+				return nil, false
+			}
+			for _, s := range sub {
+				out = append(out, structLeaf{append([]int{i}, s.path...), s.t})
+			}
+		case *types.Array:
+			return nil, false
+		default:
+			out = append(out, structLeaf{[]int{i}, ft})
+		}
+	}
+	return out, true
+}
+
 func scalarElem(t types.Type) bool {
 	switch t.Underlying().(type) {
 	case *types.Struct, *types.Array:
@@ -49,7 +81,46 @@ func (e *Encoder) appendArr(cm *ssa.CallCommon, args []Val, st *State, pc string
 	// array value with the appended elements stored on top: no quantified copy axiom is needed.
 	res := c.define("app", "Slice", fmt.Sprintf("(ite %s (mkslice %s %s %s %s) (mkslice %s %s %s %s))", inplace, sbase, soff, n, scap, newloc, soff, n, newcap))
 	if !scalarElem(elem) {
-		e.havocAll(st, "append of aggregate elements (contents not tracked)")
+		leaves, ok := structLeaves(elem)
+		if !ok || !known {
+			e.havocAll(st, "append of aggregate elements (contents not tracked)")
+			return Val{T: s.T, S: res}
+		}
+		// struct elements live in the flat memory at lfield*(lelem(base, idx)).
+		floc := func(base, idx string, path []int) string {
+			l := fmt.Sprintf("(lelem %s %s)", base, idx)
+			for _, f := range path {
+				l = fmt.Sprintf("(lfield %s %d)", l, f)
+			}
+			return l
+		}
+		start := c.define("start", c.idx(), c.binopIdx("+", soff, slen))
+		arrLoc := e.val(as.al).S
+		// values of the appended elements, read before any write
+		vals := map[string]string{}
+		for i := int64(0); i < as.at.Len(); i++ {
+			for li, lf := range leaves {
+				m := st.get(c, c.memKey(lf.t), c.memSort(lf.t))
+				vals[fmt.Sprintf("%d.%d", i, li)] = c.define("ev", c.sortOf(lf.t), fmt.Sprintf("(select %s %s)", m, floc(arrLoc, c.idxLit(i), lf.path)))
+			}
+		}
+		// reallocation: facts about the fresh array (keeps the offset), stated on the current maps
+		for li, lf := range leaves {
+			m := st.get(c, c.memKey(lf.t), c.memSort(lf.t))
+			c.assume(implies(and(pc, not(inplace)), fmt.Sprintf("(forall ((i!a %s)) (! (=> %s (= (select %s %s) (select %s %s))) :pattern ((select %s %s))))",
+				c.idx(), and(c.cmp("<=", intT, soff, "i!a"), c.cmp("<", intT, "i!a", start)), m, floc(newloc, "i!a", lf.path), m, floc(sbase, "i!a", lf.path), m, floc(newloc, "i!a", lf.path))))
+			for i := int64(0); i < as.at.Len(); i++ {
+				c.assume(implies(and(pc, not(inplace)), fmt.Sprintf("(= (select %s %s) %s)", m, floc(newloc, c.binopIdx("+", start, c.idxLit(i)), lf.path), vals[fmt.Sprintf("%d.%d", i, li)])))
+			}
+		}
+		// in place: conditional stores
+		for i := int64(0); i < as.at.Len(); i++ {
+			for li, lf := range leaves {
+				key, srt := c.memKey(lf.t), c.memSort(lf.t)
+				m := st.get(c, key, srt)
+				st.mem[key] = c.define("M_"+key, srt, fmt.Sprintf("(ite %s (store %s %s %s) %s)", inplace, m, floc(sbase, c.binopIdx("+", start, c.idxLit(i)), lf.path), vals[fmt.Sprintf("%d.%d", i, li)], m))
+			}
+		}
 		return Val{T: s.T, S: res}
 	}
 	key, srt := c.arrKey(elem), c.arrSort(elem)
